@@ -12,6 +12,7 @@ tier = "quick"
 if "--tier" in sys.argv:
     tier = sys.argv[sys.argv.index("--tier") + 1]
 PY = "/venv/bin/python"
+VSNAP = os.environ.get("MUTANT_VERIF", "/verif")  # a frozen copy of /verif while checks are being edited
 def sh(cmd, **kw):
     return subprocess.run(cmd, shell=True, capture_output=True, text=True, **kw)
 head = sh("git -C /repo rev-parse HEAD").stdout.strip()
@@ -29,7 +30,7 @@ res = {}
 for c in checks.split(","):
     t0 = time.time()
     env = dict(os.environ, FADLMC_REPO=wt, FADLMC_EVIDENCE_DIR="/tmp/fadlmc_mut_ev", FADLMC_REPLAY_DIR="/tmp/fadlmc_mut_rp")
-    rr = subprocess.run(f"cd /verif && {PY} -m fadlmc check {c} --tier {tier}", shell=True, capture_output=True, text=True, env=env)
+    rr = subprocess.run(f"cd {VSNAP} && {PY} -m fadlmc check {c} --tier {tier}", shell=True, capture_output=True, text=True, env=env)
     lines = [l for l in rr.stdout.splitlines() if l.startswith("VIOLATION") or l.startswith("   kind")]
     res[c] = {"rc": rr.returncode, "first": lines[:2], "wall_s": round(time.time() - t0, 1), "stderr": rr.stderr[-300:] if rr.returncode not in (0, 1) else ""}
 meta["checks"] = res
